@@ -134,6 +134,15 @@ Theorem C11_trajectory_prediction_setters_are_source : SrcCacheTable.class_state
 Proof. exact SrcCacheTable.src_trajectory_prediction_coherent. Qed.
 Theorem C11_obstacle_setters_are_source : SrcCacheTable.class_statement Src_cachetable.src_obstacle_caches Src_cachetable.src_obstacle_deps Src_cachetable.src_obstacle_setters.
 Proof. exact SrcCacheTable.src_obstacle_coherent. Qed.
+(* TrafficLightCycle: cycle_elements / time_offset drop the memoised cumulative durations, active leaves it alone (it is
+   not read by the code that fills the memo) *)
+Theorem C11_traffic_light_cycle_setters_are_source : SrcCacheTable.class_statement Src_cachetable.src_traffic_light_cycle_caches Src_cachetable.src_traffic_light_cycle_deps Src_cachetable.src_traffic_light_cycle_setters.
+Proof. exact SrcCacheTable.src_traffic_light_cycle_coherent. Qed.
+Example C11_cycle_table_nonvacuous :
+  (length Src_cachetable.src_traffic_light_cycle_setters = 3)%nat /\
+  CacheTable.setter_ok Src_cachetable.src_traffic_light_cycle_caches Src_cachetable.src_traffic_light_cycle_deps {| CacheTable.s_attr := 1%nat; CacheTable.s_main := [CacheTable.EStore]; CacheTable.s_tail := [] |} = false /\
+  CacheTable.setter_ok Src_cachetable.src_traffic_light_cycle_caches Src_cachetable.src_traffic_light_cycle_deps {| CacheTable.s_attr := 2%nat; CacheTable.s_main := [CacheTable.EStore]; CacheTable.s_tail := [] |} = true.
+Proof. exact SrcCacheTable.cycle_setter_without_drop_refused. Qed.
 Example C11_setter_tables_nonvacuous :
   (length Src_cachetable.src_lanelet_setters = 3 /\ length Src_cachetable.src_trajectory_prediction_setters = 2 /\
    length Src_cachetable.src_obstacle_setters = 2)%nat /\
@@ -171,4 +180,6 @@ Print Assumptions C11_lanelet_vertex_setters.
 Print Assumptions C11_lanelet_setters_are_source.
 Print Assumptions C11_trajectory_prediction_setters_are_source.
 Print Assumptions C11_obstacle_setters_are_source.
+Print Assumptions C11_traffic_light_cycle_setters_are_source.
+Print Assumptions C11_cycle_table_nonvacuous.
 Print Assumptions C11_setter_tables_nonvacuous.
